@@ -136,6 +136,9 @@ func (gme *GCPMultiEndpoint) NewStream(ctx context.Context, desc *grpc.StreamDes
 }
 
 func (gme *GCPMultiEndpoint) pickConn(ctx context.Context) *grpc.ClientConn {
+	// mes, pools and defaultName are replaced by UpdateMultiEndpoints.
+	gme.mu.RLock()
+	defer gme.mu.RUnlock()
 	name, ok := FromMEContext(ctx)
 	me, ook := gme.mes[name]
 	if !ok || !ook {
